@@ -14,7 +14,7 @@ func init() {
 	register(&Prop{
 		ID:    "C05",
 		Title: "Writes respect update, writable-field and reset masks",
-		Explanation: "R05.1 Value.set and Collection.Update build one FieldUpdater from the request, validate the written message with it before GetAndUpdate and hand the same updater to the change function. R05.2 Validate's decision table: an update mask with unknown paths or with paths outside the writable fields is rejected with InvalidArgument, anything else passes. R05.3 WriteRequest.fieldUpdater's table: all-writable override or nil resource mask mean no writable restriction, otherwise the union of resource and per-call writable fields; update and reset masks are always passed on. R05.4 the frame of FieldUpdater.Merge on every path of its decision tree: nothing-writable and empty-mask paths never write dst; src is filtered by the writable mask and by the update mask before proto.Merge(dst, src); dst is cleared (entirely only when nothing restricts writing, otherwise only the writable fields) only when there is no update mask and before the merge; the reset mask prunes dst after the merge. R05.5 pruneEmpty visits every field (its Range callback never stops the iteration) and recurses only into singular messages. Does NOT decide the field-by-field semantics of fmutils / proto.Merge on nested paths, oneofs, maps and repeated fields (third-party code, runtime message shapes).",
+		Explanation: "R05.1 Value.set and Collection.Update build one FieldUpdater from the request, validate the written message with it before GetAndUpdate and hand the same updater to the change function. R05.2 Validate's decision table: an update mask with unknown paths or with paths outside the writable fields is rejected with InvalidArgument, anything else passes. R05.3 WriteRequest.fieldUpdater's table: all-writable override or nil resource mask mean no writable restriction, otherwise the union of resource and per-call writable fields; update and reset masks are always passed on. R05.4 the frame of FieldUpdater.Merge on every path of its decision tree: nothing-writable and empty-mask paths never write dst; src is filtered by the writable mask and by the update mask before proto.Merge(dst, src); dst is cleared (entirely only when nothing restricts writing, otherwise only the writable fields) only when there is no update mask and before the merge; the reset mask prunes dst after the merge. R05.5 pruneEmpty visits every field (its Range callback never stops the iteration) and recurses only into singular messages. The read-only test compares paths on whole segments (prefix tests end in the separator). Does NOT decide the field-by-field semantics of fmutils / proto.Merge on nested paths, oneofs, maps and repeated fields (third-party code, runtime message shapes).",
 		Assumptions: []string{"fmutils.NestedMask.Filter keeps exactly the masked fields, Prune clears exactly the masked fields, proto.Merge copies set fields of src into dst, protoreflect Range stops when the callback returns false"},
 		Run:         runC05,
 		Controls: []Control{
